@@ -1,11 +1,12 @@
 // Implementation side of the C23 correspondence and direct oracle.
 //
 // stdin : one source per line, hex encoded ("-" = empty)
-// stdout: status TAB before TAB after TAB fmt TAB verdict
+// stdout: status TAB lines0 TAB before TAB after TAB lines1 TAB fmt TAB verdict
 //
 //	status  OK | PARSEERR | TEXTPANIC (CommentGroup.Text() of an import comment panics: outside the model)
+//	lines0  the token.File line table (offsets of the line starts) after parsing; lines1 after ast.SortImports
 //	before  the import declarations as parser.ParseFile returns them:  decl|decl|...
-//	        decl = O (not an import declaration) | I<lparen 0/1>:spec;spec;...
+//	        decl = O (not an import declaration) | I<lparen 0/1>,<offset of Rparen>:spec;spec;...
 //	        spec = id,name,path,hascomment,commenttext,pos,end,line,endline   (strings hex, "-" = empty)
 //	after   the same after ast.SortImports (line/endline omitted: the line table was merged), or PANIC
 //	fmt     format.Source(src) re-parsed: decl|decl, decl = O | I<0/1>:group/group, group = name,path;name,path
@@ -114,9 +115,21 @@ func record(fset *token.FileSet, f *ast.File, ids map[*ast.ImportSpec]int, base 
 		if g.Lparen.IsValid() {
 			lp = 1
 		}
-		out = append(out, fmt.Sprintf("I%d:%s", lp, strings.Join(ss, ";")))
+		out = append(out, fmt.Sprintf("I%d,%d:%s", lp, int(g.Rparen)-base, strings.Join(ss, ";")))
 	}
 	return strings.Join(out, "|"), textPanic
+}
+
+// the line table of the (single) file of fset: offsets of the line starts
+func linesOf(fset *token.FileSet) string {
+	var r []string
+	fset.Iterate(func(f *token.File) bool {
+		for _, o := range f.Lines() {
+			r = append(r, strconv.Itoa(o))
+		}
+		return false
+	})
+	return strings.Join(r, ",")
 }
 
 // groups of a parsed file: specs on successive lines
@@ -234,9 +247,10 @@ func run(src []byte) string {
 		} else if res == "" {
 			verdict = "format-succeeds-on-unparsable-input"
 		}
-		return "PARSEERR\t-\t-\t" + res + "\t" + verdict
+		return "PARSEERR\t-\t-\t-\t-\t" + res + "\t" + verdict
 	}
 	ids := map[*ast.ImportSpec]int{}
+	lines0 := linesOf(fset)
 	before, textPanic := record(fset, f, ids, base, true)
 	cntBefore := countNP(f)
 	status := "OK"
@@ -291,7 +305,11 @@ func run(src []byte) string {
 	if fm == "" {
 		fm = "-"
 	}
-	return strings.Join([]string{status, before, after, fm, verdict}, "\t")
+	lines1 := linesOf(fset)
+	if after == "PANIC" {
+		lines1 = "-"
+	}
+	return strings.Join([]string{status, lines0, before, after, lines1, fm, verdict}, "\t")
 }
 
 func main() {
